@@ -85,6 +85,7 @@ def nontrivial_case(c):
 def judge_case(case, res):
     """res = [idx, w, via, validate, check, detail] -> None or text of the failing clause"""
     _, w, via, v, c, detail = res
+    detail = (detail or "").split("\n")[0][:220]
     if v.startswith("USE-RAISED"):
         if case["exp"] == "OK":
             return "correct use of the declared type raised %s (%s)" % (v, detail)
